@@ -593,11 +593,18 @@ def guesser_loads_faithfully(prefix):
     ]
 
 
+def _renorm(ctx, rule):
+    # every probability the trainer wrote is read back unchanged: the base-structure loader divides by exactly 1.0 unless
+    # skip_brute removes the Markov structure (seed C07-g renormalised by the float sum of the file, an ulp off 1.0)
+    from . import c14
+    return c14.r2_renormalisation(ctx, rule)
+
+
 def rules(tier):
     return [('C07.R1', r1_separator_inclusion), ('C07.R2', lambda c, r: r2_encoding_agreement(c, r)),
             ('C07.R3', r3_record_layout), ('C07.R5', r5_strip_discipline), ('C07.R6', r6_wipe_before_write),
             ('C07.R7', r7_paths_written), ('C07.R8', c04.r5_grouping_kernel), ('C07.R9', lambda c, r: c03.r1_tag_chain(c, r, scope='disk')),
-            ('C07.R10', r10_loader_complete)]
+            ('C07.R10', r10_loader_complete), ('C07.R11', _renorm)]
 
 
 META = {
